@@ -431,3 +431,41 @@ Proof.
   - split; [|cbn_st; exact Eic]. unfold closed; cbn_st. apply Hic, Eic.
   - split; [apply closed_close_conn|]. sim_goal. reflexivity.
 Qed.
+
+Lemma drop_ref_last : forall x h, refcnt x = 1%Z -> ic_ok x ->
+  closed (drop_ref x h) = true /\ inner_closed (drop_ref x h) = true.
+Proof.
+  intros x h Hr Hic. unfold drop_ref. rewrite Hr. cbn [Z.ltb Z.compare Pos.compare Pos.compare_cont]. cbn_st.
+  destruct (inner_closed x) eqn:Eic.
+  - split; [|cbn_st; exact Eic]. unfold closed; cbn_st. apply Hic, Eic.
+  - split; [apply closed_close_conn|]. sim_goal. reflexivity.
+Qed.
+
+Theorem last_handle_drop_closes_recv : forall ls k, ok ls ->
+  driver_alive (run ls) = true -> nhandles (run ls) = 1%Z ->
+  recv_h (run ls) k = true -> rborrow (run ls) k = None ->
+  closed (step' (run ls) (HDropRecv k)) = true /\ inner_closed (step' (run ls) (HDropRecv k)) = true.
+Proof.
+  intros ls k Hok Ha Hn Hrh Hrb. pose proof (Inv_run ls Hok) as HI. pose proof (ic_ok_run ls) as Hic.
+  pose proof (inv_ref_alive _ HI Ha) as Hr. rewrite Hn in Hr.
+  unfold step', step. rewrite Hrh, Hrb. cbn [fst]. cbn_st.
+  apply drop_ref_last.
+  - destruct (all_read (run ls) k); [cbn_st; exact Hr|]. unfold closed; cbn_st.
+    destruct (err (run ls)); [cbn_st; exact Hr|]. sim_goal. exact Hr.
+  - unfold ic_ok, closed in *. destruct (all_read (run ls) k); [cbn_st; exact Hic|]. cbn_st.
+    destruct (err (run ls)) eqn:Ee; [cbn_st; rewrite Ee; exact Hic|]. sim_goal. rewrite Ee. exact Hic.
+Qed.
+
+Theorem last_handle_drop_closes_send : forall ls k, ok ls ->
+  driver_alive (run ls) = true -> nhandles (run ls) = 1%Z ->
+  send_h (run ls) k = true -> wborrow (run ls) k = None ->
+  closed (step' (run ls) (HDropSend k)) = true /\ inner_closed (step' (run ls) (HDropSend k)) = true.
+Proof.
+  intros ls k Hok Ha Hn Hsh Hwb. pose proof (Inv_run ls Hok) as HI. pose proof (ic_ok_run ls) as Hic.
+  pose proof (inv_ref_alive _ HI Ha) as Hr. rewrite Hn in Hr.
+  unfold step', step. rewrite Hsh, Hwb. cbn [fst]. cbn_st.
+  apply drop_ref_last.
+  - unfold closed; cbn_st. destruct (err (run ls)); [cbn_st; exact Hr|]. sim_goal. exact Hr.
+  - unfold ic_ok, closed in *. cbn_st.
+    destruct (err (run ls)) eqn:Ee; [cbn_st; rewrite Ee; exact Hic|]. sim_goal. rewrite Ee. exact Hic.
+Qed.
